@@ -9,6 +9,7 @@ use preflate_rs::{compress_zstd, decompress_deflate_stream, decompress_zstd, exp
 use preflate_rs::{WrapperCompressZip, WrapperDecompressZip};
 use serde_json::{json, Value};
 use std::io::{Read, Write};
+use std::sync::atomic::Ordering;
 use std::sync::Mutex;
 
 // ------------------------------------------------------------------- C13
@@ -734,6 +735,35 @@ pub fn conc_record(args: &Args) -> i32 {
             writeln!(out, "{}", event("End", e.clone())).unwrap();
         }
     }
+    // the arguments are the bytes, not where they happen to lie: the same input at every address
+    // modulo 8 (a sub-slice of a larger buffer)
+    for x in 0..files.len().min(ninputs) {
+        let mut buf = vec![0u8; files[x].len() + 16];
+        let base = buf.as_ptr() as usize;
+        for want in 0..8usize {
+            let off = (want + 8 - base % 8) % 8;
+            buf[off..off + files[x].len()].copy_from_slice(&files[x]);
+            let sl = &buf[off..off + files[x].len()];
+            let h0 = guarded(|| expand_zlib_chunks(sl, 0).map(|v| fnv(&v)).unwrap_or(1)).unwrap_or(6);
+            writeln!(out, "{}", event("End", json!({"t":0,"fn":0,"x":x,"round":-3,"rep":want,"hash":format!("{:016x}", h0)}))).unwrap();
+            let h4 = guarded(|| compress_zstd(sl, 0).map(|v| fnv(&v)).unwrap_or(7)).unwrap_or(6);
+            writeln!(out, "{}", event("End", json!({"t":0,"fn":4,"x":x,"round":-3,"rep":want,"hash":format!("{:016x}", h4)}))).unwrap();
+        }
+    }
+    for x in 0..streams.len() {
+        let mut buf = vec![0u8; streams[x].len() + 16];
+        let base = buf.as_ptr() as usize;
+        for want in [1usize, 4, 7] {
+            let off = (want + 8 - base % 8) % 8;
+            buf[off..off + streams[x].len()].copy_from_slice(&streams[x]);
+            let sl = &buf[off..off + streams[x].len()];
+            let h = guarded(|| match decompress_deflate_stream(sl, x % 2 == 0, 0) {
+                Ok(r) => fnv(&r.plain_text) ^ fnv(&r.prediction_corrections).rotate_left(17) ^ r.compressed_size as u64,
+                Err(_) => 3,
+            }).unwrap_or(6);
+            writeln!(out, "{}", event("End", json!({"t":0,"fn":2,"x":x,"round":-3,"rep":want,"hash":format!("{:016x}", h)}))).unwrap();
+        }
+    }
     // repeatability first: many small streams with unusual compressor settings (where the
     // estimator's candidates tie), analysed repeatedly; no threads needed for this part
     let ndet = args.num("det", 60) as usize;
@@ -760,6 +790,40 @@ pub fn conc_record(args: &Args) -> i32 {
         }
     }
     let log: Mutex<Vec<Value>> = Mutex::new(Vec::new());
+    // noisy neighbours: half of the threads do nothing but get garbage rejected (thousands of
+    // calls that fail at once) while the other half expands files that hold real streams
+    {
+        let stop = std::sync::atomic::AtomicBool::new(false);
+        let barrier = std::sync::Barrier::new(threads);
+        let garbage: Vec<Vec<u8>> = (0..64).map(|_| crate::gen::junk(&mut rng, 12)).collect();
+        let workers = (threads / 2).max(1);
+        let done = std::sync::atomic::AtomicUsize::new(0);
+        std::thread::scope(|s| {
+            for t in 0..threads {
+                let (barrier, log, call, stop, garbage, done, files) = (&barrier, &log, &call, &stop, &garbage, &done, &files);
+                s.spawn(move || {
+                    barrier.wait();
+                    if t >= workers {
+                        let mut k = 0usize;
+                        while !stop.load(Ordering::SeqCst) {
+                            let _ = guarded(|| decompress_deflate_stream(&garbage[k % garbage.len()], false, 0).is_ok());
+                            k += 1;
+                        }
+                    } else {
+                        for rep in 0..2 {
+                            for x in 0..files.len() {
+                                let h = call(0, x);
+                                log.lock().unwrap().push(json!({"t":t,"fn":0,"x":x,"round":-4,"rep":rep,"hash":format!("{:016x}", h)}));
+                            }
+                        }
+                        if done.fetch_add(1, Ordering::SeqCst) + 1 == workers {
+                            stop.store(true, Ordering::SeqCst);
+                        }
+                    }
+                });
+            }
+        });
+    }
     for round in 0..rounds {
         let barrier = std::sync::Barrier::new(threads);
         let mut plan: Vec<(usize, usize)> = Vec::new();
